@@ -515,7 +515,15 @@ def seed_identity(ctx, tool, cfg, info):
     indexed = {x.value.attr for x in g.body_nodes() if isinstance(x, ast.Subscript) and astq.is_self_attr(x.value, gself)
                and astq.is_name(x.slice, gidx)}
     ctx.need(indexed, R, "__getitem__ does not index a self attribute with its index parameter")
-    idx_tainted = any(attr_taint.get(a, False) for a in indexed)
+    # the collection whose positions the index ranges over: the one __len__ measures
+    primary = set()
+    ln = ds.methods.get("__len__")
+    if ln is not None:
+        for c_ in astq.func_calls(ln):
+            if astq.is_name(c_.func, "len") and c_.args and astq.is_self_attr(c_.args[0], ln.params[0]):
+                primary.add(c_.args[0].attr)
+    primary = (primary & indexed) or set(indexed)
+    idx_tainted = any(attr_taint.get(a, False) for a in primary)
 
     def never_none_attr(t):
         """`self.<attr> is None` (or `is not None`) whose attribute is never None given the only construction site -> (attr, op)"""
@@ -549,6 +557,16 @@ def seed_identity(ctx, tool, cfg, info):
                         skip.add(id(y))
         for x in ast.walk(node):
             if isinstance(x, ast.Subscript) and astq.is_self_attr(x.value, gself) and astq.is_name(x.slice, gidx):
+                if x.value.attr not in primary and id(x) not in skip:
+                    # a second collection selected by the position in the first: aligned only if it is built from the same items
+                    a = x.value.attr
+                    if attr_taint.get(a, False):
+                        out.append("self.%s[%s], whose values are computed from the manifest-filtered `%s`"
+                                   % (a, gidx, ", ".join(sorted(astq.text(actual[p]) for p in attr_params.get(a, ()) if p in actual and param_taint.get(p)))))
+                    elif idx_tainted:
+                        out.append("self.%s[%s]: `%s` is a position in self.%s, which holds only the utterances the manifest leaves, while self.%s is built from `%s` "
+                                   "(one entry per utterance of the whole map) - the two are aligned only when nothing was skipped"
+                                   % (a, gidx, gidx, "/".join(sorted(primary)), a, ", ".join(sorted(astq.text(actual[p]) for p in attr_params.get(a, ()) if p in actual)) or "?"))
                 # an *element* of the collection: the utterance's identity / path, not its position
                 for y in ast.walk(x):
                     skip.add(id(y))
